@@ -2,10 +2,12 @@
 //  world A: ONE real tbox::terminal::Terminal (one node tree) shared by eight session slots:
 //           slots 0-3  sessions on a recording Connection (ops sel/open/recv/opt/winsz/close),
 //           slots 4,5  two telnet clients of one real Telnetd::Impl, slot 6 a client of the real
-//                      TcpRpc::Impl (ops xconn/xrecv/xdisc; TcpServer is a recording stub defined
-//                      here, so what the services send and whom they disconnect is observable and
-//                      the receive Buffer is exactly sized: a read past the received bytes is a
-//                      heap-buffer-overflow for ASan),
+//                      TcpRpc::Impl (ops xconn/xrecv/xdisc): each client is a socketpair whose server
+//                      end is handed to the real TcpServer as a TcpConnection, so what the services send
+//                      (telnet negotiation included) and whom they disconnect goes through the real
+//                      Telnetd/TcpRpc -> TcpServer -> TcpConnection -> socket path and is read back from
+//                      the client end; received bytes are handed to Impl::onTcpReceived in an exactly
+//                      sized Buffer (a read past the received bytes is a heap-buffer-overflow for ASan),
 //           slot 7     the real Stdio::Impl over the real StdioStream/BufferedFd with fds 0 and 1
 //                      redirected to pipes (ops sstart/srecv/sstop; the op protocol itself runs
 //                      on duplicates of the original fds);
@@ -16,8 +18,8 @@
 //  world B: Telnetd::Impl / TcpRpc::Impl against a recording TerminalInteract (framing events).
 //  mode `dump`: the key scanner's complete transition table (BFS over reachable step_ values
 //           x 256 bytes) in the text format props/C13/plugin.py turns into Gen.lean.
-// Lines of one op are grouped by session slot (order between different sessions is not part of the
-// property); every line is flushed at once: a crash must be attributed to the right case.
+// Lines of one op are grouped by connection: sessions on the recording connection (slots 0-3) form one
+// group in chronological order, every socket / pipe client is a group (separate connections have no mutual order); every line is flushed at once: a crash must be attributed to the right case.
 #include "vh.h"
 #include <fcntl.h>
 #include <signal.h>
@@ -37,7 +39,7 @@
 #include <tbox/base/cabinet.hpp>
 #include <tbox/base/object_pool.hpp>
 #include <tbox/event/loop.h>
-#include <tbox/network/tcp_server.h>
+#include <sys/socket.h>
 #include <tbox/network/stdio_stream.h>
 #include <tbox/util/buffer.h>
 #include <tbox/util/split_cmdline.h>
@@ -45,6 +47,8 @@
 // the scanner's step_, and the services' Impl classes, are private: open them for the harness
 #define private public
 #define protected public
+#include <tbox/network/tcp_server.h>
+#include <tbox/network/tcp_connection.h>
 #include <tbox/terminal/impl/key_event_scanner.h>
 #include <tbox/terminal/terminal.h>
 #include <tbox/terminal/session.h>
@@ -70,52 +74,25 @@ static const int kSlots = 8, kNoSlot = 8;          // index 8: lines of the op i
 static std::vector<std::string> g_ev[kSlots + 1];
 static std::string g_tx[kSlots + 1];
 static int g_op_slot = kNoSlot;
+// sessions on the recording connection (slots 0-3) share one group, in the order things happened (the order in
+// which sessions are ended in a loop pass is compared); each socket / pipe client is a group of its own
+static int grp(int k) { return k < 4 ? 0 : k; }
 static void flush_tx(int k) {
     if (!g_tx[k].empty()) {
-        g_ev[k].push_back((k == kNoSlot ? "P tx " : "P tx " + std::to_string(k) + " ") + vh::hex(g_tx[k]));
+        g_ev[grp(k)].push_back((k == kNoSlot ? "P tx " : "P tx " + std::to_string(k) + " ") + vh::hex(g_tx[k]));
         g_tx[k].clear();
     }
 }
-static void ev(int k, const std::string &s) { flush_tx(k); g_ev[k].push_back(s); }
+static void flush_other_direct(int k) { if (k < 4) for (int j = 0; j < 4; ++j) if (j != k) flush_tx(j); }
+static void ev(int k, const std::string &s) { flush_other_direct(k); flush_tx(k); g_ev[grp(k)].push_back(s); }
 static void ev(const std::string &s) { ev(kNoSlot, s); }
-static void tx(int k, const void *p, size_t n) { g_tx[k].append((const char *)p, n); }
+static void tx(int k, const void *p, size_t n) { flush_other_direct(k); g_tx[k].append((const char *)p, n); }
 static void clear_events() { for (int k = 0; k <= kSlots; ++k) { g_ev[k].clear(); g_tx[k].clear(); } }
 static void emit() {
-    for (int k = 0; k <= kSlots; ++k) { flush_tx(k); for (auto &l : g_ev[k]) outln(l); }
+    for (int k = 0; k <= kSlots; ++k) flush_tx(k);
+    for (int k = 0; k <= kSlots; ++k) for (auto &l : g_ev[k]) outln(l);
     clear_events();
 }
-
-// ------------------------------------------------------------------ the recording TcpServer stub
-// (modules/network/tcp_server.cpp is NOT linked: Telnetd/TcpRpc talk to this one)
-static std::map<network::TcpServer::ConnToken, int> g_ct_slot;
-static void on_stub_disconnect(int slot);      // the client of that slot is gone
-namespace tbox { namespace network {
-struct TcpServer::Data { };
-TcpServer::TcpServer(event::Loop *) : d_(new Data) { }
-TcpServer::~TcpServer() { delete d_; }
-bool TcpServer::initialize(const SockAddr &, int) { return true; }
-void TcpServer::setConnectedCallback(const ConnectedCallback &) { }
-void TcpServer::setDisconnectedCallback(const DisconnectedCallback &) { }
-void TcpServer::setReceiveCallback(const ReceiveCallback &, size_t) { }
-bool TcpServer::start() { return true; }
-void TcpServer::stop() { }
-void TcpServer::cleanup() { }
-bool TcpServer::send(const ConnToken &c, const void *p, size_t n) {
-    auto it = g_ct_slot.find(c);
-    if (it == g_ct_slot.end()) return false;
-    tx(it->second, p, n);
-    return true;
-}
-bool TcpServer::disconnect(const ConnToken &c) {
-    auto it = g_ct_slot.find(c);
-    if (it == g_ct_slot.end()) return false;
-    int slot = it->second;
-    ev(slot, "P closed " + std::to_string(slot));
-    g_ct_slot.erase(it);
-    on_stub_disconnect(slot);
-    return true;
-}
-} }
 
 // ------------------------------------------------------------------ world A
 static void park_std_fds();
@@ -136,8 +113,10 @@ struct RecConn : public Connection {
     virtual ~RecConn() {}
 };
 
-struct Client {                 // a telnet / raw-TCP client (slots 4..6)
+struct Client {                 // a telnet / raw-TCP client (slots 4..6): the client end of a socketpair
     network::TcpServer::ConnToken ct;
+    network::TcpConnection *conn = nullptr;   // (owned by the TcpServer)
+    int fd = -1;
     int state = 0;              // 0 never connected, 1 connected, 2 gone
     std::vector<uint8_t> pending;
 };
@@ -164,10 +143,36 @@ struct WorldA {
         for (int i = 0; i < 4; ++i) conn[i].slot = i;
         tel = new Telnetd::Impl(loop, term);
         rpc = new TcpRpc::Impl(loop, term);
+        // what Impl::initialize() does, without binding a listening socket (connections are socketpairs
+        // handed to the real TcpServer as the acceptor would)
+        tel->sp_tcp_->setConnectedCallback([this](const network::TcpServer::ConnToken &ct) { last_ct = ct; tel->onTcpConnected(ct); });
+        tel->sp_tcp_->setDisconnectedCallback([this](const network::TcpServer::ConnToken &ct) { tel->onTcpDisconnected(ct); });
+        rpc->sp_tcp_->setConnectedCallback([this](const network::TcpServer::ConnToken &ct) { last_ct = ct; rpc->onTcpConnected(ct); });
+        rpc->sp_tcp_->setDisconnectedCallback([this](const network::TcpServer::ConnToken &ct) { rpc->onTcpDisconnected(ct); });
     }
+    network::TcpServer::ConnToken last_ct;
+    network::TcpServer *server_of(size_t slot) { return slot < 6 ? tel->sp_tcp_ : rpc->sp_tcp_; }
+    // what the real Telnetd / TcpRpc -> TcpServer -> TcpConnection wrote to the clients' sockets, and who was disconnected
+    void drain_clients() {
+        char buf[4096];
+        for (int k = 0; k < 3; ++k) {
+            Client &c = cli[k];
+            while (c.fd >= 0) {
+                ssize_t n = ::read(c.fd, buf, sizeof buf);
+                if (n > 0) { tx(4 + k, buf, (size_t)n); continue; }
+                if (n == 0) {
+                    ev(4 + k, "P closed " + std::to_string(4 + k));
+                    ::close(c.fd); c.fd = -1; c.conn = nullptr; c.state = 2; c.pending.clear();
+                }
+                break;
+            }
+        }
+    }
+    void close_clients() { for (auto &c : cli) if (c.fd >= 0) { ::close(c.fd); c.fd = -1; } }
     int front_end_pending = 0;         // endSession tasks of Telnetd/TcpRpc queued by command handlers
     void pass() { loop->runNext([] {}, "verif-pass"); loop->runLoop(event::Loop::Mode::kOnce); front_end_pending = 0; }
     void drain_stdout() {
+        drain_clients();
         if (out_r < 0) return;
         char buf[4096];
         for (;;) { ssize_t n = ::read(out_r, buf, sizeof buf); if (n <= 0) break; tx(7, buf, (size_t)n); }
@@ -179,7 +184,7 @@ struct WorldA {
         if (in_w >= 0) { ::close(in_w); ::close(out_r); in_w = out_r = -1; }
         if (had_stdio) park_std_fds();
         delete tel; delete rpc; tel = nullptr; rpc = nullptr;
-        for (auto &c : cli) g_ct_slot.erase(c.ct);
+        close_clients();                 // (silently: the model says nothing about clients of a destroyed service)
         delete term; term = nullptr;
     }
     void destroy(bool drain) {
@@ -209,9 +214,6 @@ static void park_std_fds() {
     if (nul != 0) dup2(nul, 0);
     if (nul != 1) dup2(nul, 1);
     if (nul > 1) ::close(nul);
-}
-static void on_stub_disconnect(int slot) {
-    if (g_A && slot >= 4 && slot < 7) { g_A->cli[slot - 4].state = 2; g_A->cli[slot - 4].pending.clear(); }
 }
 
 // ------------------------------------------------------------------ world B
@@ -426,10 +428,14 @@ int main(int argc, char **argv) {
             ev(ret(A->term->deleteSession(A->conn[c].tok)));
         } else if (op == "xconn" && w.size() == 2 && idx(w[1], 7, i) && i >= 4 && A->cli[i - 4].state != 1) {
             Client &cl = A->cli[i - 4];
-            cl.ct = network::TcpServer::ConnToken(++A->ct_gen + 100, i);
-            cl.pending.clear(); cl.state = 1;
-            g_ct_slot[cl.ct] = (int)i;
-            if (i < 6) A->tel->onTcpConnected(cl.ct); else A->rpc->onTcpConnected(cl.ct);
+            int sv[2];
+            if (socketpair(AF_UNIX, SOCK_STREAM, 0, sv) != 0) return 6;
+            fcntl(sv[1], F_SETFL, fcntl(sv[1], F_GETFL) | O_NONBLOCK);
+            cl.fd = sv[1]; cl.pending.clear(); cl.state = 1;
+            // as TcpAcceptor does for an accepted socket
+            auto *conn = new network::TcpConnection(A->loop, network::SocketFd(sv[0]), network::SockAddr());
+            A->server_of(i)->onTcpConnected(conn);
+            cl.ct = A->last_ct; cl.conn = conn;
             ev("P conn");
         } else if (op == "xrecv" && w.size() == 3 && idx(w[1], 7, i) && i >= 4 && A->cli[i - 4].state == 1 && vh::unhex(w[2], d)) {
             Client &cl = A->cli[i - 4];
@@ -437,9 +443,13 @@ int main(int argc, char **argv) {
             ev("M rest=" + std::to_string(cl.pending.size()));
         } else if (op == "xdisc" && w.size() == 2 && idx(w[1], 7, i) && i >= 4 && A->cli[i - 4].state == 1) {
             Client &cl = A->cli[i - 4];
-            if (i < 6) A->tel->onTcpDisconnected(cl.ct); else A->rpc->onTcpDisconnected(cl.ct);
-            g_ct_slot.erase(cl.ct);
-            cl.state = 2; cl.pending.clear();
+            A->drain_clients();
+            if (cl.state == 1) {
+                // the client went away: what TcpConnection does when its read event finds end-of-file
+                cl.conn->onSocketClosed();
+                ::close(cl.fd); cl.fd = -1; cl.conn = nullptr;
+                cl.state = 2; cl.pending.clear();
+            }
             ev("P disc");
         } else if (op == "sstart" && w.size() == 1 && A->stdio_state == 0) {
             int pi[2], po[2];
@@ -474,7 +484,7 @@ int main(int argc, char **argv) {
                 [id, script](const Session &s, const Args &a) {
                     std::string l = "P probe " + std::to_string(id) + " " + std::to_string(a.size());
                     for (auto &x : a) l += " " + vh::hex(x);
-                    if (g_op_slot == 7 && g_A) g_A->drain_stdout();   // what stdio wrote so far comes first
+                    if (g_op_slot >= 4 && g_A) g_A->drain_stdout();   // what the service wrote so far comes first
                     ev(g_op_slot, l);
                     // the handler acts on its own session, synchronously, while the command is executing
                     if (g_depth < g_max_depth && g_A) {
@@ -483,7 +493,7 @@ int main(int argc, char **argv) {
                             if (act.kind == 's') s.send(act.data);
                             else if (act.kind == 'f') g_A->term->onRecvString(s.st_, act.data);
                             else {
-                                if (g_op_slot == 7) g_A->drain_stdout();
+                                g_A->drain_stdout();
                                 s.endSession();
                                 if (g_op_slot >= 4 && g_op_slot < 7) ++g_A->front_end_pending;
                             }
@@ -512,6 +522,7 @@ int main(int argc, char **argv) {
             ok = (op[0] == 't') ? front_op(*B, *B->tel, op.substr(1), w) : front_op(*B, *B->rpc, op.substr(1), w);
         } else ok = false;
         if (!ok) { clear_events(); outln("bad-op"); continue; }
+        if (A && A->loop) A->drain_stdout();
         emit();
     }
     free(lbuf);
